@@ -13,7 +13,7 @@ def observe(R, n, seed=None):
     out = R.harness("c10", ["-n", n], env=env, outdir=os.path.join(R.work, "c10_%s" % (seed if seed is not None else "main")))
     if not out:
         return None
-    res = R.coq_cases(out, label="C10 correspondence")
+    res = R.coq_cases(out, label="C10 correspondence", timeout=900 if R.tier == "quick" else 3000)
     if res is None:
         return None
     mism, viol, total = res
@@ -79,7 +79,7 @@ def run(R):
     R.coq_files(FILES)
     R.coq_property()
     R.audit()
-    n = 260 if R.tier == "quick" else 4000
+    n = 260 if R.tier == "quick" else 3000
     obs = observe(R, n)
     total = 0
     if obs:
